@@ -923,6 +923,36 @@ fn generate(rng: &mut Rng, n: u64, tier: &str, emit: &mut dyn FnMut(Vec<String>)
             }
         }
     }
+    // S8: the unwrapped root of `GetBucketLocationOutput` — the member element `LocationConstraint` is the document
+    // (the class `xml-illformed-accepted:document-element`, repaired by d00ca17: the hand-written decoder looped over
+    // top-level elements). No element at all (nothing, white space, comments, PIs, the XML declaration), exactly one
+    // (empty in every spelling = us-east-1, or a constraint), and two in every combination, with and without
+    // something between them.
+    if both.iter().any(|t| t == "GetBucketLocationOutput") {
+        let ty = "GetBucketLocationOutput";
+        let elems = [
+            "<LocationConstraint/>",
+            "<LocationConstraint></LocationConstraint>",
+            "<LocationConstraint xmlns=\"http://s3.amazonaws.com/doc/2006-03-01/\"/>",
+            "<LocationConstraint>EU</LocationConstraint>",
+            "<LocationConstraint> </LocationConstraint>",
+            "<LocationConstraint><!-- c --></LocationConstraint>",
+            "<LocationConstraint><![CDATA[]]></LocationConstraint>",
+        ];
+        let misc = ["", " ", "\n", "\r\n\t", "<!-- c -->", "<?pi?>", " <!-- c -->\n<?pi?> "];
+        let decl = "<?xml version=\"1.0\" encoding=\"UTF-8\"?>";
+        for m in misc {
+            put(ty, m.as_bytes());
+            put(ty, format!("{decl}{m}").as_bytes());
+            for a in elems {
+                put(ty, format!("{m}{a}{m}").as_bytes());
+                put(ty, format!("{decl}{m}{a}").as_bytes());
+                for b in elems {
+                    put(ty, format!("{a}{m}{b}").as_bytes());
+                }
+            }
+        }
+    }
     // random part
     for k in 0..n {
         let ty = &both[rng.below(both.len() as u64) as usize];
